@@ -637,6 +637,7 @@ def c17(chk):
 def c19(chk):
     chk.extract(("newtypes", "messageTypes"))
     chk.proofs(["Midi.Props.C19"])
+    chk.translated(['TSerde'])
     exe = chk.cargo_build("with_serde")
     if exe is None:
         return
